@@ -44,7 +44,6 @@ std::vector<GeoChoice> const& geo_choices()
         {"test/geocel/data/testem15.org.json", 1},
         {"test/geocel/data/testem3-flat.org.json", 1},
         {"test/orange/data/five-volumes.org.json", 2},
-        {"test/orange/data/universes.org.json", 3},
         {"test/orange/data/rect-array.org.json", 2},
         {"test/orange/data/nested-rect-arrays.org.json", 2},
         {"test/orange/data/hex-array.org.json", 2},
@@ -286,7 +285,7 @@ GenCtx gen_problem_config(CheckSpec const& spec, Rng const& root, GenOpts const&
             json d;
             double minstep = L * rph.log_uniform(1e-9, 1e-5);
             d["minimum_step"] = minstep;
-            d["delta_intersection"] = minstep * rph.log_uniform(2, 1e3);
+            d["delta_intersection"] = minstep * rph.log_uniform(2, 30);
             d["delta_chord"] = L * rph.log_uniform(1e-5, 1e-2);
             d["epsilon_step"] = rph.log_uniform(1e-7, 1e-3);
             d["max_nsteps"] = 5 + (int)rph.below(200);
@@ -379,6 +378,32 @@ GenCtx gen_problem_config(CheckSpec const& spec, Rng const& root, GenOpts const&
         }
         cfg["callbacks"] = cbs;
     }
+    // "Tie" mode: a fixed step limiter commensurate with the geometry, weak
+    // physics and (see gen_primary) axis-parallel charged primaries starting
+    // on lattice points, so that a physics step limit can coincide exactly
+    // with the distance to a boundary.
+    if (charged_eloss && rp.coin(0.12))
+    {
+        ctx.tie_mode = true;
+        static double const lims[] = {0.25, 0.5, 1.0, 2.0, 4.0};
+        double lim = lims[rp.below(5)];
+        while (L / lim > 256)
+            lim *= 2;  // keep the number of steps per track bounded
+        problem["options"]["fixed_step_limiter"] = lim;
+        for (auto& pr : problem["procs"])
+        {
+            if (pr["particle"] == "gamma")
+                continue;
+            for (auto& row : pr["xs"])
+                for (auto& x : row)
+                    x = x.get<double>() * 0.02;
+            if (!pr["eloss"].is_null())
+                for (auto& row : pr["eloss"])
+                    for (auto& x : row)
+                        x = x.get<double>() * 1e-3;
+        }
+        problem["along"]["fluct"] = false;
+    }
     ctx.problem = problem;
     ctx.config = cfg;
     ctx.gi = &gi;
@@ -408,10 +433,59 @@ json gen_primary(GenCtx const& ctx, Rng& rw, unsigned event)
         ok = v != kNone && ctx.vol_mat[v].get<int>() >= 0
              && gi.probe->safety(pos) > 1e-4 * ctx.L;
     }
-    p["ok"] = ok;
-    p["pos"] = {pos[0], pos[1], pos[2]};
     double d[3];
     rw.isotropic(d);
+    if (ctx.tie_mode && rw.coin(0.8))
+    {
+        // charged particle on a (half-)integer lattice point, axis-parallel
+        for (unsigned i = 0; i < ctx.particles.size(); ++i)
+            if (ctx.particles[i] != "gamma" && rw.coin(0.6))
+                p["particle"] = i;
+        p["energy"] = ctx.e_hi;
+        bool ok2 = false;
+        double q[3];
+        int a = (int)rw.below(3);  // travel axis
+        for (int tries = 0; tries < 200 && !ok2; ++tries)
+        {
+            for (int k = 0; k < 3; ++k)
+            {
+                double span = std::min(gi.hi[k] - gi.lo[k], 40.0);
+                double c0 = std::fabs(gi.lo[k] + gi.hi[k]) < 1e-9 ? 0.0 : std::round(0.5 * (gi.lo[k] + gi.hi[k]));
+                if (k == a)
+                {
+                    // on the lattice along the direction of travel: distances to
+                    // planes normal to it are then commensurate with the limiter
+                    q[k] = c0 + std::round(rw.uniform(-0.5 * span, 0.5 * span) * 2) / 2;
+                }
+                else
+                {
+                    // generic in the transverse directions, so that the line
+                    // of flight does not lie inside a surface
+                    q[k] = c0 + rw.uniform(-0.5 * span, 0.5 * span);
+                }
+            }
+            std::uint32_t v = gi.probe->locate(q);
+            ok2 = v != kNone && ctx.vol_mat[v].get<int>() >= 0;
+            for (int k = 0; k < 3 && ok2; ++k)
+                for (double e : {-1e-3, 1e-3})
+                {
+                    double qq[3] = {q[0], q[1], q[2]};
+                    qq[k] += e;
+                    if (gi.probe->locate(qq) != v)
+                        ok2 = false;
+                }
+        }
+        if (ok2)
+        {
+            ok = true;
+            for (int k = 0; k < 3; ++k)
+                pos[k] = q[k];
+            d[0] = d[1] = d[2] = 0;
+            d[a] = rw.coin(0.5) ? 1 : -1;
+        }
+    }
+    p["ok"] = ok;
+    p["pos"] = {pos[0], pos[1], pos[2]};
     p["dir"] = {d[0], d[1], d[2]};
     p["time"] = rw.coin(0.5) ? 0.0 : rw.uniform(0, 1e-9);
     return p;
@@ -453,6 +527,8 @@ json gen_event_op(GenCtx const& ctx,
         batches.push_back(batch);
     }
     op["batches"] = batches;
+    if (rw.coin(0.12))
+        op["kill_at"] = (int)(1 + rw.below(8));
     return op;
 }
 
